@@ -17,6 +17,8 @@ var plainFields = []string{
 	"github.com/wundergraph/graphql-go-tools/v2/pkg/engine/resolve.InflightRequest.SharedData",
 	"github.com/wundergraph/graphql-go-tools/v2/pkg/engine/resolve.SingleFlightItem.response",
 	"github.com/wundergraph/graphql-go-tools/v2/pkg/engine/resolve.SingleFlightItem.err",
+	"github.com/wundergraph/graphql-go-tools/v2/pkg/engine/resolve.SingleFlightItem.statusCode",
+	"github.com/wundergraph/graphql-go-tools/v2/pkg/engine/resolve.SingleFlightItem.responseHeaders",
 }
 
 var realResolve = "REAL (instrumented): v2/pkg/engine/resolve"
